@@ -1,4 +1,219 @@
-(* placeholder, replaced below *)
-From PV Require Import Dist.Num Dist.Draw.
-Theorem C14_placeholder : True. Proof. exact I. Qed.
-Print Assumptions C14_placeholder.
+(* C14 - draws are a pure function of parameters and stream output, within the
+   support; drawing never raises; parameter domains enforced.   Status: PARTIAL.
+
+   Model: Dist/Draw.v (one Gallina text over a number structure), executed with
+   PrimFloat + recorded libm tables in the per-run correspondence check
+   (harness/c14.py) and read over the real numbers (Dist/NumR.v) for the
+   support / totality / constructor theorems.  [pv = false] is the repaired tree
+   (proposed_fixes/C14-*.patch), [pv = true] the pinned tree 13808df.
+
+   What is missing for "full": the support and totality theorems are about
+   exact real arithmetic - float rounding at the support boundary, underflow
+   (uniforms below 2^-64, inner gamma draws that underflow to 0.0) and overflow
+   are only exercised by the correspondence run, and the cases where the
+   repaired code still raises are listed as known findings
+   (C14_*_refuted below show the mechanism).  Termination of the rejection
+   loops (polar method, Poisson) is a probability-one statement and is not
+   proved: the theorems say "returns a value in the support or the finite
+   recorded stream output ran dry", never "raises".  erf / erf_inv are
+   arbitrary functions here (the truncated normal is clamped whatever they
+   return). *)
+From Coq Require Import Reals Lra ZArith List Bool PrimFloat.
+From PV Require Import Dist.Num Dist.Draw Dist.NumR Dist.NumF Dist.Frame Dist.Support Dist.Ctor Dist.Refuted.
+Import ListNotations.
+
+(* ---- clause: determined solely by parameters and the numbers the stream delivers ---- *)
+
+(* draw() - result AND cached gaussian afterwards - depends only on (variant,
+   stored parameters, cache, the uniforms it consumed); it hands back exactly
+   the unconsumed rest of the stream output.  Any number structure, both variants. *)
+Theorem C14_draw_determined_by_consumed_uniforms :
+  forall (N : num) pv d cache us r c' rest,
+  draw_c N pv d cache us = (r, c', rest) ->
+  exists used, us = used ++ rest /\
+    (r <> Err NoUniform -> forall ext, draw_c N pv d cache (used ++ ext) = (r, c', ext)).
+Proof. exact draw_c_prefix. Qed.
+Print Assumptions C14_draw_determined_by_consumed_uniforms.
+
+(* equal parameters on two streams with equal content: same draw, and the two
+   streams have equal content again (so the whole sequences coincide) *)
+Theorem C14_twin_streams_equal :
+  forall (N : num) pv (ins : nat -> option (inst (T N))) (st : store N) a b ia ib,
+  ins a = Some ia -> ins b = Some ib ->
+  idist ia = idist ib -> icache ia = icache ib ->
+  isid ia <> isid ib -> st (isid ia) = st (isid ib) ->
+  forall w1 m1 w2 m2,
+  step N pv (ins, st) (ODraw a) = (w1, m1) ->
+  step N pv w1 (ODraw b) = (w2, m2) ->
+  m1 = m2 /\
+  snd w2 (isid ia) = snd w2 (isid ib) /\
+  (exists ia' ib', fst w2 a = Some ia' /\ fst w2 b = Some ib' /\
+                   idist ia' = idist ib' /\ icache ia' = icache ib' /\
+                   isid ia' = isid ia /\ isid ib' = isid ib).
+Proof. exact twin_draws_equal. Qed.
+Print Assumptions C14_twin_streams_equal.
+
+(* ---- clause: instances never influence each other ---- *)
+(* one operation changes only its own instance and only the stream that instance points to *)
+Theorem C14_operation_frame :
+  forall (N : num) pv (w : world N) o w' m,
+  step N pv w o = (w', m) ->
+  (forall j, j <> op_inst N o -> fst w' j = fst w j) /\
+  (forall s, op_reads w o <> Some s -> snd w' s = snd w s).
+Proof. exact step_frame. Qed.
+Print Assumptions C14_operation_frame.
+
+(* what instance k outputs in any interleaving with operations of other
+   instances (constructions, draws, re-pointings) that read streams outside S
+   is what it outputs when run alone *)
+Theorem C14_instances_isolated :
+  forall (N : num) pv k S ops (w1 w2 : world N),
+  agree k S w1 w2 -> points_in k S w1 -> separated pv k S w1 ops ->
+  outputs_of N k ops (snd (run N pv w1 ops)) = snd (run N pv w2 (only N k ops)).
+Proof. exact isolated. Qed.
+Print Assumptions C14_instances_isolated.
+
+(* non-vacuity: two exponential instances on streams 0 and 1, interleaved *)
+Example C14_isolated_example :
+  let N := numF [] in
+  let w : world N := (fun _ => None, fun _ => []) in
+  let ops := [ONew 0 CExponential true 0 [PF 2%float]; ONew 1 CExponential true 1 [PF 3%float];
+              ODraw 0; ODraw 1; ODraw 0] in
+  separated false 0 (fun s => Nat.eqb s 0) w ops /\ length (only N 0 ops) = 3%nat.
+Proof. vm_compute. repeat split. Qed.
+
+(* ---- clause: after re-pointing the old stream is never consumed again ---- *)
+Theorem C14_repoint_old_stream_untouched :
+  forall (N : num) pv (w : world N) k i s2 ops w1,
+  fst w k = Some i ->
+  fst (step N pv w (OSetStream k true s2)) = w1 ->
+  draws_of N k ops ->
+  forall s, s <> s2 -> snd (fst (run N pv w1 ops)) s = snd w s.
+Proof. exact repoint_old_stream_untouched. Qed.
+Print Assumptions C14_repoint_old_stream_untouched.
+
+(* re-pointing stores the new stream and drops DistNormal's cached gaussian ... *)
+Theorem C14_repoint_drops_cached_gaussian :
+  forall (N : num) pv (w : world N) k i s2,
+  fst w k = Some i ->
+  step N pv w (OSetStream k true s2) =
+    ((wupd N (fst w) k (Some (mkInst (idist i) s2 None)), snd w), MNone).
+Proof. exact repoint_sets_stream_and_drops_cache. Qed.
+Print Assumptions C14_repoint_drops_cached_gaussian.
+
+(* ... so the next normal draw runs the polar method on the new stream (>= 2 uniforms) *)
+Theorem C14_repoint_normal_redraws :
+  forall (N : num) pv mu sigma us r c' rest,
+  draw_c N pv (DNormal mu sigma) None us = (r, c', rest) ->
+  (exists v, r = Val v) -> (length rest + 2 <= length us)%nat.
+Proof. exact repoint_normal_redraws. Qed.
+Print Assumptions C14_repoint_normal_redraws.
+
+Local Open Scope R_scope.
+(* ---- clauses: every draw lies in the support / drawing never raises (exact reals) ---- *)
+(* FULL STATEMENT (not proved): for every float stream output in [0,1) and every
+   accepted float parameter set, draw() returns a value of the support.
+   PROVED: the same over the reals, in two parts. *)
+
+(* 16 classes (all but Beta / Pearson5 / Pearson6): uniforms in [0,1), 0 included *)
+Theorem C14_support_and_totality_half_open_partial :
+  forall (erf erfinv gammaf lgammaf : R -> R) d cache us,
+  wf d -> divides d = false -> Forall half_open us ->
+  match draw (numR erf erfinv gammaf lgammaf) false d cache us with
+  | (Val (v, _), _) => in_support d v
+  | (Err e, _) => e = NoUniform
+  end.
+Proof. exact support_half_open. Qed.
+Print Assumptions C14_support_and_totality_half_open_partial.
+
+(* all 19 classes: uniforms in the open interval (0,1) *)
+Theorem C14_support_and_totality_open_partial :
+  forall (erf erfinv gammaf lgammaf : R -> R) d cache us,
+  wf d -> Forall open01 us ->
+  match draw (numR erf erfinv gammaf lgammaf) false d cache us with
+  | (Val (v, _), _) => in_support d v
+  | (Err e, _) => e = NoUniform
+  end.
+Proof. exact support_open. Qed.
+Print Assumptions C14_support_and_totality_open_partial.
+
+(* non-vacuity: a well-formed gamma instance with shape < 1 and a stream output containing 0 *)
+Example C14_support_example :
+  wf (DGamma (/ 2) 2) /\ divides (DGamma (/ 2) 2) = false /\ Forall half_open [0%R; (/ 2)%R].
+Proof.
+  split; [simpl; lra|]. split; [reflexivity|].
+  repeat constructor; unfold half_open; lra.
+Qed.
+
+(* pinned tree: refuted by uniforms 0.0 / (0.5, 0.5) *)
+Theorem C14_draw_total_pinned_refuted :
+  forall (erf erfinv gammaf lgammaf : R -> R),
+  let NR := numR erf erfinv gammaf lgammaf in
+  draw NR true (DExponential 1) None [0%R] = (Err (Raise EValue), []) /\
+  draw NR true (DNormal 0 1) None [(/ 2)%R; (/ 2)%R] = (Err (Raise EValue), []).
+Proof.
+  intros. split; [apply pinned_exponential_raises_on_zero|apply pinned_normal_raises_on_half_half].
+Qed.
+Print Assumptions C14_draw_total_pinned_refuted.
+
+(* repaired tree, still false (known findings): Pearson5 with shape < 1 divides
+   by a gamma draw of 0 (uniform 0; with floats also by underflow); the product
+   of uniforms in DistErlang underflows for a subnormal uniform (floats only) *)
+Theorem C14_draw_total_zero_division_refuted :
+  forall (erf erfinv gammaf lgammaf : R -> R),
+  fst (draw (numR erf erfinv gammaf lgammaf) false (DPearson5 (/ 2) 1 (/ 2, 1%R)) None [0%R; (/ 2)%R])
+  = Err (Raise EZeroDiv).
+Proof. exact repaired_pearson5_divides_by_zero. Qed.
+Print Assumptions C14_draw_total_zero_division_refuted.
+
+Theorem C14_draw_total_subnormal_uniform_refuted :
+  fst (draw (numF tb_log0) false (DErlang 1%float 2%Z 1%float None) None
+         [0x0.0000000000001p-1022%float; 0x1p-1%float]) = Err (Raise EValue).
+Proof. exact repaired_erlang_raises_on_subnormal_uniform. Qed.
+Print Assumptions C14_draw_total_subnormal_uniform_refuted.
+
+(* ---- clause: parameters outside the documented domain are rejected, inside it usable ---- *)
+(* accepted  =>  a stream was given, the parameters are in the documented domain,
+   and what is stored satisfies the hypothesis [wf] of the support theorems *)
+Theorem C14_ctor_rejects_outside_domain :
+  forall (erf erfinv gammaf lgammaf : R -> R) c sok ps d,
+  ctor (numR erf erfinv gammaf lgammaf) false c sok ps = Val d ->
+  sok = true /\ dom erf erfinv gammaf lgammaf c ps /\ wf d.
+Proof. exact ctor_sound. Qed.
+Print Assumptions C14_ctor_rejects_outside_domain.
+
+Theorem C14_ctor_usable_inside_domain :
+  forall (erf erfinv gammaf lgammaf : R -> R) c ps,
+  dom erf erfinv gammaf lgammaf c ps ->
+  exists d, ctor (numR erf erfinv gammaf lgammaf) false c true ps = Val d.
+Proof. exact ctor_complete. Qed.
+Print Assumptions C14_ctor_usable_inside_domain.
+
+Example C14_dom_example :
+  forall (erf erfinv gammaf lgammaf : R -> R),
+  dom erf erfinv gammaf lgammaf CTriangular [PF 1%R; PI 1%Z; PF 4%R].
+Proof.
+  intros. simpl. split; [repeat constructor|]. unfold pf, p_float. simpl. lra.
+Qed.
+
+(* NaN parameters (floats): refused by every repaired range check; the pinned
+   "x <= 0" spellings let them through; p = 0 for the geometric family *)
+Theorem C14_ctor_rejects_nan :
+  forallb (fun cp => is_value_error (ctor (numF []) false (fst cp) true (snd cp))) nan_cases = true.
+Proof. exact repaired_ctor_rejects_nan. Qed.
+Print Assumptions C14_ctor_rejects_nan.
+
+Theorem C14_ctor_pinned_refuted :
+  forallb (fun cp => is_accept_or_later (ctor (numF []) true (fst cp) true (snd cp))) (firstn 24 nan_cases) = true /\
+  (forall (erf erfinv gammaf lgammaf : R -> R),
+     exists d, ctor (numR erf erfinv gammaf lgammaf) true CGeometric true [PF 0%R] = Val d /\
+               fst (draw (numR erf erfinv gammaf lgammaf) true d None [(/ 2)%R]) = Err (Raise EZeroDiv)).
+Proof. split; [exact pinned_ctor_accepts_nan|exact pinned_geometric_accepts_p_zero]. Qed.
+Print Assumptions C14_ctor_pinned_refuted.
+
+Theorem C14_ctor_geometric_open_interval :
+  forall (erf erfinv gammaf lgammaf : R -> R),
+  ctor (numR erf erfinv gammaf lgammaf) false CGeometric true [PF 0%R] = Err (Raise EValue) /\
+  ctor (numR erf erfinv gammaf lgammaf) false CGeometric true [PF 1%R] = Err (Raise EValue).
+Proof. exact repaired_geometric_rejects_p_zero_and_one. Qed.
+Print Assumptions C14_ctor_geometric_open_interval.
